@@ -373,11 +373,11 @@ def str_method(prop="C05"):
 
 # ---------------------------------------------------------------- graph node URLs: BaseNode.__init__ final block
 def basenode_url_block(prop="C05"):
-    from pyvc.blocks import between
+    from pyvc.blocks import stmt_containing
     c = Contract("ford.graphs", "BaseNode.__init__", prop)
     c.qual_suffix = "url_block"
-    c.block_select = between("if self.url and getattr(obj, 'visible', True)", "self.afferent")
-    c.dropped.append("block contract: only the statement `if self.url and getattr(obj, 'visible', True): ...` of BaseNode.__init__")
+    c.block_select = stmt_containing("self.attribs['URL']")
+    c.dropped.append("block contract: only the top-level statement of BaseNode.__init__ that assigns self.attribs['URL']")
     c.fields = {"url": "str", "fromstr": "bool", "attribs": "dict:str:str", "visible": "bool", "parent_dir": "str", "external_url": "str"}
     c.param("self", TRef("BaseNode"))
     c.param("obj", TRef("FortranBase"))
